@@ -215,6 +215,11 @@ Proof.
   unfold parse_one. rewrite cut_at_app by exact Heq. rewrite unescape_plain by assumption.
   rewrite key_seg_split by exact Hne. simpl option_map.
   unfold free in Hsl. rewrite Hsl. rewrite (seg_lookup_ok is_mod pfx kids i k q Hr).
+  assert (Hlen : length (key_types k) = length key).
+  { clear - Hkeys. induction Hkeys as [|a b la lb _ _ IH]; [reflexivity|]. simpl. now rewrite IH. }
+  assert (Hlt : Nat.ltb (length (map key_text key)) (length (key_types k)) = false)
+    by (rewrite map_length, Hlen; apply Nat.ltb_irrefl).
+  rewrite Hlt.
   unfold k at 1. rewrite (conv_keys_text _ _ Hkeys). reflexivity.
 Qed.
 
